@@ -26,7 +26,7 @@ ASSUMPTIONS = ["transaction ids concrete (see C34)", "sends succeed", "allocatio
 DESIGN_REF = "DESIGN.md §5 C38"
 
 US = ["nameserver_pick.3:4", "transaction_id_pick.2:3", "vpe_strlen.0:26", "vpe_strncmp.0:26", "vpd_calloc.0:15", "evdns_base_set_max_requests_inflight.4:15",
-      "vpd_memcpy.0:130", "vpd_memcpy_var.0:30", "vpd_memset.0:130", "vpe_memcpy.0:30", "vpd_check_write.0:10", "vpe_strcasecmp.0:3", "evdns_tree_SPLAY.4:3", "vpd_strdup.0:3", "vpd_strdup.1:4"]
+      "vpd_memcpy.0:130", "vpd_memcpy_var.0:30", "vpd_memset.0:130", "vpe_memcpy.0:30", "vpd_check_write.0:10", "vpe_strcasecmp.0:3", "evdns_tree_SPLAY.4:3", "vpd_strdup.0:3", "vpd_strdup.1:4", "evdns_cache_lookup.1:6", "evutil_addrinfo_append_.0:9", "evutil_freeaddrinfo.0:10", "evutil_dup_addrinfo_.0:10"]
 
 def ob(name, entry, desc, fam=0, socktype=1, extra=(), **kw):
     defs = ["C38_FAMILY=%d" % fam, "C38_SOCKTYPE=%d" % socktype] + list(extra)
